@@ -13,7 +13,7 @@ CHECKS = {
     ),
     "C02": dict(
         text="Runtime monitoring of identities between the derivatives one state reports: Euler A=-pV+sum mu N, V dp/dV+sum N dp/dN=0 (residual and total), sum_j N_j dmu_i/dN_j=V dp/dN_i, symmetry of dmu/dN via an independent swapped hyper-dual evaluation, sum_i N_i dlnphi_i/dN_j=0, partial molar v/s/h sums, and invariance of intensive properties under (V,N)->(lambda V, lambda N), lambda in [1e-3,1e3], on 3.5e3 (quick) / 1.7e5 (thorough) random states of every model family incl. functionals, 1-4 components.",
-        note="Identities are judged relative to the sum of |terms| with tolerance 3e-10 (1e-9 for scale invariance), relaxed by 0.1/eta at packing fractions where the residual loses precision and for dilute components in the second composition derivatives.",
+        note="Identities are judged relative to the sum of |terms| with tolerance 1e-9 (1e-9 for scale invariance), relaxed by 0.1/eta at packing fractions where the residual loses precision and for dilute components in the second composition derivatives.",
         technique="relational oracle on executions: exact thermodynamic identities between getters of one state, metamorphic (lambda V, lambda N) pairs",
         ref="DESIGN.md 2/C02",
     ),
@@ -36,7 +36,7 @@ CHECKS = {
         ref="DESIGN.md 2/C05",
     ),
     "C06": dict(
-        text="Runtime monitoring of State::critical_point / critical_point_binary / spinodal: for every pure shipped record (unguided, guided by initial temperatures in [0.5,1.6] T_c, and with the 300/700/500 K trial ladder forced through failpoints) dp/dV and d2p/dV2 vanish (1e-6 of rho k T / V) at positive pressure; random Peng-Robinson triples reproduce (T_c,p_c) (2e-4, 5-digit textbook constants); mixtures: smallest eigenvalue of the scaled composition Hessian and the cubic form along its eigenvector, both recomputed independently from dmu_dni with nalgebra and finite differences, vanish (1e-4); binary critical points echo T / reproduce p; spinodals have vanishing dp/dV or eigenvalue, bracket the critical density and lie inside the binodal. Recorded defects F18 (negative-pressure stationary points of SAFT-VR Mie) and F19 (spinodal returns the vapour branch twice at low T) are KNOWN-FINDING.",
+        text="Runtime monitoring of State::critical_point / critical_point_binary / spinodal: for every pure shipped record (unguided, guided by initial temperatures in [0.5,1.6] T_c, and with the 300/700/500 K trial ladder forced through failpoints) dp/dV and d2p/dV2 vanish (1e-6 of rho k T / V) at positive pressure; random Peng-Robinson triples reproduce (T_c,p_c) (2e-4, 5-digit textbook constants); mixtures: smallest eigenvalue of the scaled composition Hessian and the cubic form along its eigenvector, both recomputed independently from dmu_dni with nalgebra and finite differences, vanish (eigenvalue 1e-4, cubic form 1e-3); binary critical points echo T / reproduce p; spinodals have vanishing dp/dV or eigenvalue, bracket the critical density and lie inside the binodal. Recorded defects F18 (negative-pressure stationary points of SAFT-VR Mie) and F19 (spinodal returns the vapour branch twice at low T) are KNOWN-FINDING.",
         note="Mixture criticality is recomputed outside critical_point.rs; tolerance 1e-4 covers the finite-difference error of the cubic form. Positive pressure is demanded for pure substances only, as the statement says.",
         technique="relational oracle on executions: defining conditions recomputed independently at every returned state; fault injection into the trial-temperature ladder",
         ref="DESIGN.md 2/C06",
